@@ -137,7 +137,9 @@ func genCases(c *Ctx) []Case {
 	}
 	r := c.Rng
 	full := func() *vgen { return &vgen{maxElem: 2} }
-	nully := func() *vgen { return &vgen{r: rand.New(rand.NewSource(r.Int63())), nullP: 0.25, emptyP: 0.2, maxElem: 3} }
+	nully := func() *vgen {
+		return &vgen{r: rand.New(rand.NewSource(r.Int63())), nullP: 0.25, emptyP: 0.2, maxElem: 3}
+	}
 	d1 := alphabetD1()
 	d2 := alphabetD2()
 	c.Note("alphabets: |D1|=%d (depth<=1), |D2|=%d (depth 2 over a reduced inner alphabet)", len(d1), len(d2))
@@ -151,7 +153,7 @@ func genCases(c *Ctx) []Case {
 	}
 	// 2. triples over D1: exhaustive in thorough, sampled in quick; the third value repeats
 	// the first type with nulls so that the shaper cache and null paths are exercised
-	nTrip := c.N(1500, 0)
+	nTrip := c.N(1000, 0)
 	if c.Thorough() {
 		red := reducedD1()
 		for _, a := range red {
@@ -173,7 +175,7 @@ func genCases(c *Ctx) []Case {
 			}
 		}
 	}
-	for i := 0; i < c.N(1500, 8000); i++ {
+	for i := 0; i < c.N(1000, 8000); i++ {
 		a, b := d2[r.Intn(len(d2))], d2[r.Intn(len(d2))]
 		if r.Intn(3) == 0 {
 			b = d1[r.Intn(len(d1))]
@@ -185,7 +187,7 @@ func genCases(c *Ctx) []Case {
 		add("d2-sample", ts, nully())
 	}
 	// 4. random: a base type and near mutations of it, 2..6 values, repeated types
-	for i := 0; i < c.N(1200, 25000); i++ {
+	for i := 0; i < c.N(1000, 25000); i++ {
 		depth := 1 + r.Intn(3)
 		base := randType(r, depth)
 		n := 2 + r.Intn(5)
